@@ -85,8 +85,36 @@ def lines(ctx):
     return out
 
 
+def rewind_lines(ctx):
+    """the counted limits do not move under rewind: operation count (201) and stack size (1000) reached, undone, reached again"""
+    from .c04 import session_line
+    out = []
+    for sv in (0, 1, 3):
+        w = 1000 if sv == 3 else None
+        for nops in (200, 201, 202):
+            sc = bytes([0x51]) + bytes([0x61]) * nops
+            for k in (nops - 1, nops, nops + 1):
+                for j in (1, 2, 5, k):
+                    out.append(session_line(sv, R.STD, sc, (), b"", "s" * k + "r" * j + "s" * (j + 3), weight=w))
+                    out.append(session_line(sv, 0, sc, (), b"", ("s" * k + "r" * j) * 2 + "s" * (j + 3), weight=w))
+        # CHECKMULTISIG adds its key count: 0-of-20 at 181/182 counted operations
+        for nops in (180, 181):
+            sc = bytes([0x61]) * nops + bytes([0x00, 0x00]) + bytes([0x00]) * 20 + bytes([0x01, 20, 0xae])
+            if sv != 3:
+                for j in (1, 3, 24):
+                    out.append(session_line(sv, 0, sc, (), b"", "s" * (nops + 24) + "r" * j + "s" * (j + 2), weight=w))
+        # stack size: 999 / 1000 / 1001 elements reached by OP_DUP, undone, reached again
+        for n in (998, 999, 1000):
+            sc = bytes([0x51]) + bytes([0x76]) * n
+            for j in (1, 2, 7):
+                out.append(session_line(sv, 0, sc, (), b"", "s" * (n + 1) + "r" * j + "s" * (j + 2), weight=(None if sv != 3 else 100000)))
+    return out
+
+
 def run(ctx):
     spend_limits(ctx)
+    rl = rewind_lines(ctx)
+    ctx.compare("limits-under-rewind", rl, ctx.harness_sharded(rl), ctx.driver_sharded(rl, "model"), ctx.driver_sharded(rl, "spec"), nontrivial=lambda c, im: "+" in im.split(" ")[0])
     ls = lines(ctx)
     impl, model, spec, bad = R.three_way(ctx, "limits", ls, shards=16)
     R.histogram(ctx, impl, "outcomes")
